@@ -125,6 +125,7 @@ func (e *Engine) corpusChecks(id, tier string) []fdResult {
 		"C10": {"kit.NewJApiFromFile/bounded/corpus-paste-expansion#1", "replacing every PASTE of a corpus document by the re-indented body of its MACRO and deleting the MACRO blocks gives the same catalog bytes; undefined and pasted cyclic macros are errors"},
 		"C19": {"kit.NewJApiFromFile/bounded/corpus-banned-kinds#1", "for every accepted corpus document and each of the 31 directive kinds: banning a kind that occurs is rejected with the not-allowed error on an occurrence; banning a kind that does not occur gives the same catalog bytes"},
 	}
+	goals["C14"] = [2]string{"kit.NewJapi/bounded/include-arrangements#1", "24 INCLUDE arrangements on disk: parameters with '..', '.', an absolute path, a backslash or nothing are refused at the INCLUDE although the file they name exists; a missing file and a directory are errors at the INCLUDE; cycles not through the root are recursion errors; several files, one file several times and names relative to the including file are accepted and resolved against the right directory"}
 	g, ok := goals[id]
 	if !ok {
 		return nil
@@ -137,6 +138,61 @@ func (e *Engine) corpusChecks(id, tier string) []fdResult {
 	out := runKitReplay(e, replayCorpusSrc, "zz_govc_corpus_test.go", "TestGovcCorpusOracle", "corpus oracle "+id+" on the real builder (package kit):")
 	res := []fdResult{{Name: g[0], Props: []string{id}, Goal: "BOUNDED (built-in documents and /repo/testdata): " + g[1] + " (bounded sample, not a proof)",
 		OK: strings.Contains(out, "DONE tried=") && !strings.Contains(out, "REPRODUCED input"), Detail: out}}
+	if id == "C14" {
+		// cycles through the root file are a recorded class (known finding D29): an obligation of its own
+		var rc []string
+		for _, l := range strings.Split(out, "\n") {
+			if strings.HasPrefix(l, "ROOTCYCLE ") {
+				rc = append(rc, l)
+			}
+		}
+		res = append(res, fdResult{Name: "kit.NewJapi/bounded/include-cycle-through-root#1", Props: []string{id},
+			Goal: "BOUNDED (2 projects): a cycle of INCLUDEs that passes through the root file is reported as the recursion error (bounded sample, not a proof)",
+			OK:   strings.Contains(out, "DONE tried=") && len(rc) == 0, Detail: strings.Join(rc, "\n") + "\n"})
+	}
+	if id == "C07" {
+		os.Setenv("GOVC_ORACLE", "TRACE")
+		out2 := runKitReplay(e, replayCorpusSrc, "zz_govc_corpus_test.go", "TestGovcCorpusOracle", "include-trace oracle on the real builder (package kit):")
+		res = append(res, fdResult{Name: "kit.NewJapi/bounded/include-trace#1", Props: []string{id},
+			Goal: "BOUNDED (3 projects: a scan-phase and two build-phase errors in a file reached through three nested INCLUDEs): the error names that file and line, and the trace lists the three INCLUDE directives innermost first, each with its line (bounded sample, not a proof)",
+			OK:   strings.Contains(out2, "DONE tried=") && !strings.Contains(out2, "REPRODUCED input"), Detail: out2})
+	}
+	if id == "C06" {
+		// two fresh processes: the digests of all outcomes must agree
+		os.Setenv("GOVC_ORACLE", "DIGEST")
+		a := runKitReplay(e, replayCorpusSrc, "zz_govc_corpus_test.go", "TestGovcCorpusOracle", "digest run 1:")
+		b := runKitReplay(e, replayCorpusSrc, "zz_govc_corpus_test.go", "TestGovcCorpusOracle", "digest run 2:")
+		one := func(out string) (map[string]string, string) {
+			m := map[string]string{}
+			dg := ""
+			for _, l := range strings.Split(out, "\n") {
+				if strings.HasPrefix(l, "ONE ") {
+					if i := strings.LastIndex(l, " "); i > 4 {
+						m[l[4:i]] = l[i+1:]
+					}
+				}
+				if strings.HasPrefix(l, "DIGEST ") {
+					dg = l
+				}
+			}
+			return m, dg
+		}
+		ma, da := one(a)
+		mb, db := one(b)
+		detail := "run 1: " + da + "\nrun 2: " + db + "\n"
+		ok := da != "" && da == db
+		if da != "" && db != "" && da != db {
+			for k, v := range ma {
+				if mb[k] != v {
+					detail += "REPRODUCED input=file:" + k + " : two fresh processes build this document to different results\n"
+					break
+				}
+			}
+		}
+		res = append(res, fdResult{Name: "kit.NewJApiFromFile/bounded/corpus-two-processes#1", Props: []string{id},
+			Goal: "BOUNDED (about 1000 corpus documents, accepted and rejected): two fresh processes produce the same catalog bytes / the same error text for every document (bounded sample, not a proof)",
+			OK:   ok, Detail: detail})
+	}
 	if id == "C05" {
 		// documents without any directive are a recorded class (known finding D28): an obligation of its own
 		var nd []string
